@@ -18,6 +18,27 @@ fn main() {
         std::process::exit(2);
     }
     let engine = args[1].as_str();
+    if engine == "judge" {
+        // vh judge <file>...: C10 oracle on the bytes of each file; prints one JSON line per file
+        std::panic::set_hook(Box::new(|_| {}));
+        for f in &args[2..] {
+            let data = std::fs::read(f).unwrap_or_default();
+            match vharness::pure::judge_one(&data) {
+                Some(v) => println!("{{\"file\":\"{}\",\"violation\":{}}}", f, v),
+                None => println!("{{\"file\":\"{}\",\"violation\":null}}", f),
+            }
+        }
+        return;
+    }
+    if engine == "corpus" {
+        // vh corpus <dir>: seed corpus for the fuzz target (the grammar packets of the C10 workload)
+        let dir = std::path::PathBuf::from(&args[2]);
+        std::fs::create_dir_all(&dir).unwrap();
+        for (i, p) in vharness::pure::seed_corpus().iter().enumerate() {
+            std::fs::write(dir.join(format!("seed{i:05}")), p).unwrap();
+        }
+        return;
+    }
     let id = args[2].as_str();
     let tier = arg(&args, "--tier").unwrap_or_else(|| "quick".into());
     let seed: u64 = arg(&args, "--seed").and_then(|s| s.parse().ok()).unwrap_or(1);
